@@ -111,8 +111,10 @@ def _decoder(ctx: Ctx) -> dict[str, Any] | None:
     home_ref = _app("mod", _app("floordiv", g, div), n)
     away0 = _app("mod", g, div)
     # which variables hold home / away? the ones used as column of stores
-    stores = [s for s in ast.walk(day_loop) if isinstance(s, ast.Assign)
+    stores = [s for s in ast.walk(game_loop) if isinstance(s, ast.Assign)
               and isinstance(s.targets[0], ast.Subscript)]
+    in_loop = [s for s in stores if any(s is x for x in ast.walk(day_loop))]
+    after_loop = bool(stores) and not in_loop
     ok_dec = False
     home = away = None
     info: dict[str, Any] = {}
@@ -120,11 +122,29 @@ def _decoder(ctx: Ctx) -> dict[str, Any] | None:
     dvar = day_loop.target.id if isinstance(
         day_loop.target, ast.Name) else "day"
     denv.vars[dvar] = Poly.var("day")
+    # search-then-write form: the stores follow the day loop; evaluate the
+    # statements between the loop and the stores with day = its final value
+    senv = denv
+    if after_loop:
+        senv = denv.copy()
+        gpre = GuardWalk(ev)
+        past = False
+        for s in game_loop.body:
+            if s is day_loop:
+                past = True
+                continue
+            if past and not any(st is x for st in stores
+                                for x in ast.walk(s)):
+                try:
+                    senv = ev.stmt(senv, s)
+                except Unsupported:
+                    pass
+        del gpre
     try:
         cols = []
         for s in stores:
-            idx = ev.index(denv, s.targets[0].slice)
-            val = ev.num(denv, s.value)
+            idx = ev.index(senv, s.targets[0].slice)
+            val = ev.num(senv, s.value)
             cols.append((idx, val, s))
         # the pair of stores: y[day, H] = A + 1 ; y[day, A] = -(H + 1)
         if len(cols) == 2:
@@ -193,20 +213,17 @@ def _decoder(ctx: Ctx) -> dict[str, Any] | None:
            construct="ascending day scan")
     gw2 = GuardWalk(ev)
     gw2.walk(denv.copy(), day_loop.body, loops=(day_loop,))
-    conts = [e for e in gw2.exits if e.kind == "continue"]
     brks = [e for e in gw2.exits if e.kind == "break"]
     ok_p = False
     detail = "placement block not recognised"
-    if home is not None and len(brks) == 1:
-        day = Poly.var("day")
-        ch = Poly.atom(("cell", "y", (day, home)))
-        ca = Poly.atom(("cell", "y", (day, away)))
-        zero = Poly.const(0)
-        path = brks[0].path
-        # both cells zero on the path to the stores/break
-        want = {("eq",) + tuple(_eq(ch, zero)[1:]),
-                ("eq",) + tuple(_eq(ca, zero)[1:])}
-        conj = set()
+    day = Poly.var("day")
+    zero = Poly.const(0)
+
+    def conj_of(path: tuple) -> set[tuple] | None:
+        if is_opaque(path):
+            return None
+        conj: set[tuple] = set()
+
         def flat(c: tuple) -> None:
             if c[0] == "and":
                 for x in c[1:]:
@@ -216,35 +233,74 @@ def _decoder(ctx: Ctx) -> dict[str, Any] | None:
                     flat(c_not(x))
             elif c[0] == "not" and c[1][0] == "not":
                 flat(c[1][1])
-            else:
+            elif c[0] != "true":
                 conj.add(c)
-        if not is_opaque(path):
-            flat(path)
-        both_free = want <= conj
-        # stores and break in one block, stores before break
-        blk = None
-        for b in _blocks(day_loop):
-            if brks[0].node in b:
-                blk = b
-        st_in_blk = blk is not None and all(
-            any(s is x for x in blk) for s in stores) and all(
-            blk.index(s) < blk.index(brks[0].node) for s in stores)
-        n_st_total = sum(1 for s in ast.walk(ctx.repo.func(
-            MOD, "map_games").node) if isinstance(
-            s, (ast.Assign, ast.AugAssign)) and any(
-            isinstance(t, ast.Subscript) for t in (
-                s.targets if isinstance(s, ast.Assign) else [s.target])))
-        ok_p = both_free and st_in_blk and n_st_total == 2
-        detail = (f"stores happen under [{show_cond(path)[:120]}], both "
-                  "cells free: " + str(both_free) + "; stores+break in one "
-                  "block: " + str(st_in_blk) + f"; {n_st_total} plan stores "
-                  "in total")
+        flat(path)
+        return conj
+
+    n_st_total = sum(1 for s in ast.walk(fi.node) if isinstance(
+        s, (ast.Assign, ast.AugAssign)) and any(
+        isinstance(t, ast.Subscript) for t in (
+            s.targets if isinstance(s, ast.Assign) else [s.target])))
+    rebinds = [t for t in ast.walk(ast.Module(body=day_loop.body,
+                                              type_ignores=[]))
+               if isinstance(t, ast.Name) and isinstance(t.ctx, ast.Store)
+               and t.id == dvar]
+    if home is not None and len(brks) == 1 and not day_loop.orelse \
+            and not rebinds:
+        ch = Poly.atom(("cell", "y", (day, home)))
+        ca = Poly.atom(("cell", "y", (day, away)))
+        want = {("eq",) + tuple(_eq(ch, zero)[1:]),
+                ("eq",) + tuple(_eq(ca, zero)[1:])}
+        conj = conj_of(brks[0].path)
+        # the scan stops on a day exactly when both cells are free
+        both_free = conj == want
+        if not after_loop:
+            # idiom A: stores and break in one block, stores before break
+            blk = None
+            for b in _blocks(day_loop):
+                if brks[0].node in b:
+                    blk = b
+            st_ok = blk is not None and all(
+                any(s is x for x in blk) for s in stores) and all(
+                blk.index(s) < blk.index(brks[0].node) for s in stores)
+            form = "stores+break in one block"
+        else:
+            # idiom B: the scan only searches; the stores follow the loop
+            # and re-check that both cells of the final day are free (the
+            # final day is the first free one, or the last day when none
+            # is free - then the re-check fails and the game is dropped)
+            gw3 = GuardWalk(ev, watch={f"{yp}[]"})
+            wenv = denv.copy()
+            past = False
+            for s in game_loop.body:
+                if s is day_loop:
+                    past = True
+                    continue
+                if past:
+                    wenv = gw3.walk(wenv, [s])
+            marks = [m for m in gw3.marks if m.name == f"{yp}[]"]
+            st_ok = len(marks) == 2 and all(
+                conj_of(m.path) == want for m in marks) and len(
+                {show_cond(m.path) for m in marks}) == 1 and not any(
+                e.kind in ("break", "continue", "return")
+                for e in gw3.exits)
+            form = ("stores after the scan re-check both cells of the "
+                    "final day")
+            if marks and not st_ok:
+                form += (" [found: " + "; ".join(sorted(
+                    {show_cond(m.path)[:100] for m in marks})) + "]")
+        ok_p = both_free and st_ok and n_st_total == 2
+        detail = (f"scan stops under [{show_cond(brks[0].path)[:120]}], "
+                  "exactly when both cells are free: " + str(both_free)
+                  + f"; {form}: " + str(st_ok) + f"; {n_st_total} plan "
+                  "stores in total")
     ctx.ob("D15.1", fi, brks[0].node if brks else day_loop, ok_p,
            "a game is written as the pair (away+1, -(home+1)) exactly when "
-           "both cells of the day are 0, then the scan stops" if ok_p else
+           "both cells of the day are 0, on the first such day, and the "
+           "scan stops there" if ok_p else
            "placement protocol broken: " + detail,
            construct="paired placement on first free day")
-    del conts
     return info if ok_dec else None
 
 
